@@ -138,4 +138,13 @@ example (K : Keys) (clock : Clock) (fuel : Nat) (e : Engine Unit) :
 example (K : Keys) (clock : Clock) : C08_full_soft_eq_hard (demoComp K) clock NoMen ∧ Laws (demoComp K) NoMen ∧ NoMen Board.empty :=
   ⟨soft_eq_hard _ _, demo_laws K, noMen_empty⟩
 
+/-- non-vacuity of `nodes_le_budget` for a PONDER search with a hard budget (`WithNodes` together
+    with `WithPonderHit`; at the budget the search neither counts nor aborts while pondering): the
+    counter still ends `≤ N`, whether the ponder hit never arrives (`k = none`) or arrives at any poll `k`. -/
+example (K : Keys) (clock : Clock) (fuel : Nat) (e : Engine Unit) (k : Option Nat) :
+    (go (demoComp K) { depth := 5, nodes := 100, softNodes := 0, softTime := 0, stop := some 50, ponder := k, output := true }
+      clock fuel e Board.empty).st.nodes ≤ 100 :=
+  nodes_le_budget (demoComp K) _ clock (demo_laws K) fuel e Board.empty noMen_empty 0
+    (show (0 : Int) ≤ 100 by decide) (show (0 : Int) ≤ 100 by decide)
+
 end ChessVerif.Props.C08
